@@ -220,6 +220,14 @@ def div(a, b):
             return r
     if b[0] == "num" and b[1] == 0:
         return ("call", "div", (a, b), ())
+    # sum(x) / len(x) is the mean of x
+    if a[0] == "call" and a[1] == "sum" and len(a[2]) == 1 and not a[3]:
+        x = a[2][0]
+        lens = {("call", "len", (x,), ())}
+        if x[0] == "map" and x[4] == TRUE:
+            lens.add(("call", "len", (x[3],), ()))      # len of an unfiltered comprehension is len of its source
+        if b in lens:
+            return ("call", "mean", (x,), ())
     return mul(a, power(b, Fraction(-1)))
 
 
